@@ -280,6 +280,79 @@ void probe_chrono_row(const char *tag) {
 """)
 
 
+_s("chrono_compare", r"""
+        std::printf("chrono_compare %d %d %d %d %d %d\n", int(seconds(60) == std::chrono::minutes(1)), int(std::chrono::minutes(1) == seconds(60)),
+                    int(seconds(61) != std::chrono::minutes(1)), int(std::chrono::milliseconds(999) < seconds(1)),
+                    int(minutes(2) >= std::chrono::seconds(120)), int((seconds(30) + std::chrono::seconds(30)) == minutes(1)));
+""", defs="#include <chrono>\n")
+
+_s("point_mixed", r"""
+        constexpr auto a = make_quantity_point<Milli<Seconds>>(std::int64_t{61000});
+        constexpr auto b = make_quantity_point<Minutes>(1);
+        std::printf("point_mixed %d %d %d %lld %s\n", int(a > b), int(a == b), int(a != b), static_cast<long long>((a - b).in(milli(seconds))),
+                    unit_label(decltype(a - b)::unit));
+""")
+
+_s("zero_ops", r"""
+        std::printf("zero_ops %d %d %d %d %.17g\n", int(ZERO == ZERO), int(ZERO < seconds(1)), int(minutes(0) >= ZERO), (ZERO - seconds(4)).in(seconds),
+                    (minutes(1.5) - ZERO).in(minutes));
+        const QuantityD<Seconds> z = ZERO;
+        std::printf("zero_ops2 %.17g %d\n", z.in(seconds), int(make_quantity_point<Seconds>(0) - make_quantity_point<Seconds>(0) == ZERO));
+""")
+
+_s("mag_compare", r"""
+        std::printf("mag_compare %d %d %d %d\n", int(mag<6>() == mag<2>() * mag<3>()), int(mag<6>() != mag<7>()), int(is_rational(mag<3>() / mag<4>())),
+                    int(is_integer(mag<3>() / mag<4>())));
+""")
+
+_s("constant_compare", r"""
+        constexpr auto C = make_constant(minutes * mag<2>());
+        std::printf("constant_compare %d %d %d %d\n", int(C == seconds(120)), int(seconds(119) < C), int(C >= minutes(2)), int((C * C).as<int>(squared(minutes)) == squared(minutes)(4)));
+""")
+
+_s("int_division", r"""
+        std::printf("int_division %d %d %d\n", (seconds(17) / 5).in(seconds), (minutes(7) / unblock_int_div(seconds(2))).in(minutes / seconds), int(as_raw_number(integer_quotient(minutes(60), minutes(7)))));
+""")
+
+_s("nttp_enum", r"""
+        constexpr QuantityI32<Seconds>::NTTP n = seconds(5);
+        constexpr QuantityI32<Seconds> back = from_nttp(n);
+        std::printf("nttp_enum %d %d\n", back.in(seconds), int(std::is_enum<QuantityI32<Seconds>::NTTP>::value));
+""")
+
+_s("scaled_units", r"""
+        constexpr auto dozen_s = seconds * mag<12>();
+        constexpr auto third_min = minutes / mag<3>();
+        std::printf("scaled_units %d %d %s %s %d\n", dozen_s(5).in(seconds), third_min(6).in(seconds), unit_label(dozen_s), unit_label(third_min),
+                    int(dozen_s(5) == minutes(1)));
+""")
+
+_s("common_units", r"""
+        std::printf("common_units [%s] [%s] [%s] %d\n", unit_label(common_unit(seconds, minutes)), unit_label(common_unit(minutes * mag<2>(), seconds * mag<90>())),
+                    unit_label(common_unit(hours, minutes, seconds)), (minutes(1) + seconds(1)).in(seconds));
+""")
+
+_s("sub_int_mixed", r"""
+        const auto a = seconds(std::int8_t{100});
+        const auto b = seconds(std::int16_t{1000});
+        const auto c = a + b;
+        const auto d = milli(seconds)(std::uint8_t{250}) * std::uint8_t{2};
+        auto e = seconds(std::int8_t{5});
+        e += seconds(std::int8_t{6});
+        e *= std::int8_t{2};
+        std::printf("sub_int_mixed %d %zu %d %zu %d\n", int(c.in(seconds)), sizeof(c), int(d.in(milli(seconds))), sizeof(d), int(e.in(seconds)));
+""")
+
+_s("float_compare", r"""
+        std::printf("float_compare %d %d %d %.9g\n", int(seconds(0.5f) < milli(seconds)(501.0f)), int(minutes(1.0f) == seconds(60.0)), int(seconds(1) < seconds(1.5)),
+                    double((seconds(1.5f) + minutes(1)).in(seconds)));
+""")
+
+_s("round_sub_int", r"""
+        std::printf("round_sub_int %d %d %d\n", int(round_in<std::int8_t>(seconds, milli(seconds)(2499.0))), int(ceil_in<std::uint16_t>(minutes, seconds(3601.0))),
+                    int(floor_as<std::int16_t>(seconds, milli(seconds)(-1.0)).in(seconds)));
+""")
+
 def names():
     return sorted(SNIPPETS)
 
